@@ -19,7 +19,7 @@ func init() {
 	register("align-replay", alignReplay)
 }
 
-const proteinLetters = "ARNDCQEGHILKMFPSTWYVBZX"
+const alProteinLetters = "ARNDCQEGHILKMFPSTWYVBZX"
 
 // alTable describes a substitution matrix.
 // kind "seeded": Es is the matrix.  kind "shipped": Name is a package variable; Es is read from it.
@@ -63,7 +63,7 @@ type alEvent struct {
 	SwPanic  bool   `json:"sw_panic"`
 }
 
-func shippedMatrix(name string) (align.SubstitutionMatrix, bool) {
+func alShippedMatrix(name string) (align.SubstitutionMatrix, bool) {
 	switch name {
 	case "PAM120":
 		return align.PAM120, true
@@ -83,23 +83,23 @@ func shippedMatrix(name string) (align.SubstitutionMatrix, bool) {
 	return nil, false
 }
 
-var shippedNames = []string{"PAM120", "PAM160", "PAM250", "BLOSUM45", "BLOSUM62", "BLOSUM80"}
+var alShippedNames = []string{"PAM120", "PAM160", "PAM250", "BLOSUM45", "BLOSUM62", "BLOSUM80"}
 
-func toInt(f float64, what string) (int, error) {
+func alToInt(f float64, what string) (int, error) {
 	if f != math.Trunc(f) || math.IsInf(f, 0) || math.IsNaN(f) || math.Abs(f) > 1e9 {
 		return 0, fmt.Errorf("%s: %v is not a (small) integer; the projection to ints would not be exact", what, f)
 	}
 	return int(f), nil
 }
 
-// dumpMatrix lists the entries of the real map (restricted to keys over `only` if non-nil), sorted.
-func dumpMatrix(m align.SubstitutionMatrix, only map[byte]bool, what string) ([][]int, error) {
+// alDumpMatrix lists the entries of the real map (restricted to keys over `only` if non-nil), sorted.
+func alDumpMatrix(m align.SubstitutionMatrix, only map[byte]bool, what string) ([][]int, error) {
 	es := make([][]int, 0, len(m))
 	for k, v := range m {
 		if only != nil && !(only[k[0]] && only[k[1]]) {
 			continue
 		}
-		s, err := toInt(v, fmt.Sprintf("%s[%d,%d]", what, k[0], k[1]))
+		s, err := alToInt(v, fmt.Sprintf("%s[%d,%d]", what, k[0], k[1]))
 		if err != nil {
 			return nil, err
 		}
@@ -114,15 +114,15 @@ func dumpMatrix(m align.SubstitutionMatrix, only map[byte]bool, what string) ([]
 	return es, nil
 }
 
-func proteinAlpha() []int {
-	a := sints(proteinLetters)
+func alProteinAlpha() []int {
+	a := sints(alProteinLetters)
 	a = append(a, align.Gap)
 	sort.Ints(a)
 	return a
 }
 
-// materialize returns the matrix to align with and completes the table description from the real data.
-func materialize(t *alTable) (align.SubstitutionMatrix, error) {
+// alMaterialize returns the matrix to align with and completes the table description from the real data.
+func alMaterialize(t *alTable) (align.SubstitutionMatrix, error) {
 	switch t.Kind {
 	case "seeded":
 		m := align.SubstitutionMatrix{}
@@ -131,12 +131,12 @@ func materialize(t *alTable) (align.SubstitutionMatrix, error) {
 		}
 		return m, nil
 	case "shipped":
-		m, ok := shippedMatrix(t.Name)
+		m, ok := alShippedMatrix(t.Name)
 		if !ok {
 			return nil, fmt.Errorf("no shipped matrix %q", t.Name)
 		}
-		t.Alpha = proteinAlpha()
-		es, err := dumpMatrix(m, nil, t.Name)
+		t.Alpha = alProteinAlpha()
+		es, err := alDumpMatrix(m, nil, t.Name)
 		t.Es = es
 		return m, err
 	case "lev":
@@ -144,14 +144,14 @@ func materialize(t *alTable) (align.SubstitutionMatrix, error) {
 		for _, x := range t.Alpha {
 			only[byte(x)] = true
 		}
-		es, err := dumpMatrix(align.Levenshtein, only, "Levenshtein")
+		es, err := alDumpMatrix(align.Levenshtein, only, "Levenshtein")
 		t.Es = es
 		return align.Levenshtein, err
 	}
 	return nil, fmt.Errorf("bad table kind %q", t.Kind)
 }
 
-func sameMatrix(m, snap align.SubstitutionMatrix) bool {
+func alSameMatrix(m, snap align.SubstitutionMatrix) bool {
 	if len(m) != len(snap) {
 		return false
 	}
@@ -163,7 +163,7 @@ func sameMatrix(m, snap align.SubstitutionMatrix) bool {
 	return true
 }
 
-func stepsToInts(s []align.Step) []int {
+func alStepsToInts(s []align.Step) []int {
 	out := make([]int, len(s))
 	for i, x := range s {
 		out[i] = int(x)
@@ -179,10 +179,10 @@ func alignCall(op string, a, b []byte, m, snap align.SubstitutionMatrix, line in
 	ev.Panic, ev.PanicMsg = catch(func() {
 		if op == "global" {
 			s, sc := align.Global(ac, bc, m)
-			ev.Steps, score = stepsToInts(s), sc
+			ev.Steps, score = alStepsToInts(s), sc
 		} else {
 			s, ai, bi, sc := align.Local(ac, bc, m)
-			ev.Steps, ev.Ai, ev.Bi, score = stepsToInts(s), ai, bi, sc
+			ev.Steps, ev.Ai, ev.Bi, score = alStepsToInts(s), ai, bi, sc
 		}
 	})
 	if ev.Panic {
@@ -194,7 +194,7 @@ func alignCall(op string, a, b []byte, m, snap align.SubstitutionMatrix, line in
 	}
 	ev.Score = int(score)
 	ev.AAfter, ev.BAfter = ints(ac), ints(bc)
-	ev.MSame = sameMatrix(m, snap)
+	ev.MSame = alSameMatrix(m, snap)
 	var sw float64
 	ev.SwPanic, _ = catch(func() {
 		if op == "global" {
@@ -224,7 +224,7 @@ func runAlignPlan(p *alPlan, out string) error {
 	snaps := make([]align.SubstitutionMatrix, len(p.Tables))
 	for i := range p.Tables {
 		t := &p.Tables[i]
-		m, err := materialize(t)
+		m, err := alMaterialize(t)
 		if err != nil {
 			return err
 		}
@@ -240,7 +240,7 @@ func runAlignPlan(p *alPlan, out string) error {
 		tw.emit(map[string]any{"op": "table", "name": t.Name, "kind": t.Kind, "alpha": t.Alpha, "es": t.Es})
 	}
 	if p.LevTable {
-		es, err := dumpMatrix(align.Levenshtein, nil, "Levenshtein")
+		es, err := alDumpMatrix(align.Levenshtein, nil, "Levenshtein")
 		if err != nil {
 			return err
 		}
@@ -268,13 +268,13 @@ func alignReplay(args []string) error {
 
 // ---------------------------------------------------------------- seeded plans
 
-type matOpts struct {
+type alMatOpts struct {
 	sym     bool
 	open    int
 	anyGaps bool // gap scores may be positive (outside Local's domain: Global only)
 }
 
-func genMatrix(r *rand.Rand, name string, letters []byte, o matOpts) alTable {
+func alGenMatrix(r *rand.Rand, name string, letters []byte, o alMatOpts) alTable {
 	alpha := append(ints(letters), align.Gap)
 	sort.Ints(alpha)
 	sc := map[[2]int]int{}
@@ -321,7 +321,7 @@ func genMatrix(r *rand.Rand, name string, letters []byte, o matOpts) alTable {
 	return t
 }
 
-func localDomain(t *alTable) bool {
+func alLocalDomain(t *alTable) bool {
 	for _, e := range t.Es {
 		if (e[0] == align.Gap || e[1] == align.Gap) && e[2] > 0 {
 			return false
@@ -330,18 +330,18 @@ func localDomain(t *alTable) bool {
 	return true
 }
 
-var letterPool = []byte{'a', 'b', 'c', 'A', 'C', 'G', 'T', 0, 1, 254, ' ', '\n', 0x80, '-', '*'}
+var alLetterPool = []byte{'a', 'b', 'c', 'A', 'C', 'G', 'T', 0, 1, 254, ' ', '\n', 0x80, '-', '*'}
 
-func pickLetters(r *rand.Rand, n int) []byte {
-	perm := r.Perm(len(letterPool))
+func alPickLetters(r *rand.Rand, n int) []byte {
+	perm := r.Perm(len(alLetterPool))
 	out := make([]byte, n)
 	for i := range out {
-		out[i] = letterPool[perm[i]]
+		out[i] = alLetterPool[perm[i]]
 	}
 	return out
 }
 
-func allStrings(letters []byte, maxLen int) [][]byte {
+func alAllStrings(letters []byte, maxLen int) [][]byte {
 	out := [][]byte{{}}
 	frontier := [][]byte{{}}
 	for n := 1; n <= maxLen; n++ {
@@ -357,7 +357,7 @@ func allStrings(letters []byte, maxLen int) [][]byte {
 	return out
 }
 
-func randSeq(r *rand.Rand, letters []byte, n int) []byte {
+func alRandSeq(r *rand.Rand, letters []byte, n int) []byte {
 	b := make([]byte, n)
 	for i := range b {
 		b[i] = letters[r.Intn(len(letters))]
@@ -365,8 +365,8 @@ func randSeq(r *rand.Rand, letters []byte, n int) []byte {
 	return b
 }
 
-// mutate returns a with substitutions, deleted runs and inserted runs.
-func mutate(r *rand.Rand, a, letters []byte, maxLen int) []byte {
+// alMutate returns a with substitutions, deleted runs and inserted runs.
+func alMutate(r *rand.Rand, a, letters []byte, maxLen int) []byte {
 	rate := 1 + r.Intn(4)
 	b := []byte{}
 	for i := 0; i < len(a); i++ {
@@ -390,40 +390,40 @@ func mutate(r *rand.Rand, a, letters []byte, maxLen int) []byte {
 	return b
 }
 
-// relatedPair: two sequences up to maxLen that are related by edits (or, one time in four, independent).
-func relatedPair(r *rand.Rand, letters []byte, maxLen int) ([]byte, []byte) {
-	a := randSeq(r, letters, r.Intn(maxLen+1))
+// alRelatedPair: two sequences up to maxLen that are related by edits (or, one time in four, independent).
+func alRelatedPair(r *rand.Rand, letters []byte, maxLen int) ([]byte, []byte) {
+	a := alRandSeq(r, letters, r.Intn(maxLen+1))
 	if r.Intn(4) == 0 {
-		return a, randSeq(r, letters, r.Intn(maxLen+1))
+		return a, alRandSeq(r, letters, r.Intn(maxLen+1))
 	}
-	b := mutate(r, a, letters, maxLen)
+	b := alMutate(r, a, letters, maxLen)
 	if r.Intn(2) == 0 {
 		return b, a
 	}
 	return a, b
 }
 
-type planBuilder struct {
+type alPlanBuilder struct {
 	p    alPlan
 	prop string
 }
 
-func (pb *planBuilder) table(t alTable) int {
+func (pb *alPlanBuilder) table(t alTable) int {
 	pb.p.Tables = append(pb.p.Tables, t)
 	return len(pb.p.Tables) - 1
 }
 
 // call adds Global and (inside Local's domain) Local on the pair.
-func (pb *planBuilder) call(t int, a, b []byte) {
+func (pb *alPlanBuilder) call(t int, a, b []byte) {
 	pb.p.Cases = append(pb.p.Cases, alCase{"global", t, ints(a), ints(b)})
 	tb := &pb.p.Tables[t]
-	if tb.Kind != "seeded" || localDomain(tb) {
+	if tb.Kind != "seeded" || alLocalDomain(tb) {
 		pb.p.Cases = append(pb.p.Cases, alCase{"local", t, ints(a), ints(b)})
 	}
 }
 
 // wantsOpen tells whether matrices with this gap-open belong to the property's domain.
-func (pb *planBuilder) wantsOpen(open int) bool {
+func (pb *alPlanBuilder) wantsOpen(open int) bool {
 	switch pb.prop {
 	case "C09":
 		return open == 0
@@ -437,7 +437,7 @@ func buildAlignPlan(prop string) (*alPlan, error) {
 	if prop != "C08" && prop != "C09" && prop != "C10" {
 		return nil, fmt.Errorf("unknown property %q", prop)
 	}
-	pb := &planBuilder{prop: prop}
+	pb := &alPlanBuilder{prop: prop}
 	salt := map[string]int64{"C08": 8000, "C09": 9000, "C10": 10000}[prop]
 	r := newRand(salt)
 	big := thorough()
@@ -460,14 +460,14 @@ func buildAlignPlan(prop string) (*alPlan, error) {
 	}
 
 	// F1: every pair up to length 4 over 2 letters
-	l2 := pickLetters(r, 2)
-	s2 := allStrings(l2, 4)
+	l2 := alPickLetters(r, 2)
+	s2 := alAllStrings(l2, 4)
 	n1 := 4 * mult
 	if prop == "C08" { // no optimum to compute: events are cheap to judge
 		n1 = 6 * mult
 	}
 	for i, o := range opens(n1) {
-		t := pb.table(genMatrix(r, fmt.Sprintf("seeded-2-%d", i), l2, matOpts{sym: i%2 == 0, open: o}))
+		t := pb.table(alGenMatrix(r, fmt.Sprintf("seeded-2-%d", i), l2, alMatOpts{sym: i%2 == 0, open: o}))
 		for _, a := range s2 {
 			for _, b := range s2 {
 				pb.call(t, a, b)
@@ -475,14 +475,14 @@ func buildAlignPlan(prop string) (*alPlan, error) {
 		}
 	}
 	// F2: every pair up to length 3 (thorough: 4) over 3 letters
-	l3 := pickLetters(r, 3)
+	l3 := alPickLetters(r, 3)
 	n3 := 3
 	if big {
 		n3 = 4
 	}
-	s3 := allStrings(l3, n3)
+	s3 := alAllStrings(l3, n3)
 	for i, o := range opens(2) {
-		t := pb.table(genMatrix(r, fmt.Sprintf("seeded-3-%d", i), l3, matOpts{sym: i%2 == 1, open: o}))
+		t := pb.table(alGenMatrix(r, fmt.Sprintf("seeded-3-%d", i), l3, alMatOpts{sym: i%2 == 1, open: o}))
 		for _, a := range s3 {
 			for _, b := range s3 {
 				pb.call(t, a, b)
@@ -490,13 +490,13 @@ func buildAlignPlan(prop string) (*alPlan, error) {
 		}
 	}
 	// F3 (Global only): gap scores and gap-open of either sign, every pair up to length 3 over 2 letters
-	s2s := allStrings(l2, 3)
+	s2s := alAllStrings(l2, 3)
 	for i := 0; i < 2*mult; i++ {
 		o := []int{2, 1, -1, 0, -2, 3}[r.Intn(6)]
 		if !pb.wantsOpen(o) {
 			o = map[string]int{"C09": 0, "C10": 1 + r.Intn(2)}[prop]
 		}
-		tb := genMatrix(r, fmt.Sprintf("seeded-anygap-%d", i), l2, matOpts{sym: i%2 == 0, open: o, anyGaps: true})
+		tb := alGenMatrix(r, fmt.Sprintf("seeded-anygap-%d", i), l2, alMatOpts{sym: i%2 == 0, open: o, anyGaps: true})
 		t := pb.table(tb)
 		for _, a := range s2s {
 			for _, b := range s2s {
@@ -505,8 +505,8 @@ func buildAlignPlan(prop string) (*alPlan, error) {
 		}
 	}
 	// F4: random related pairs up to length 60 over 4 and 23 letters; a few at 200
-	l4 := pickLetters(r, 4)
-	l23 := []byte(proteinLetters)
+	l4 := alPickLetters(r, 4)
+	l23 := []byte(alProteinLetters)
 	rmult := 1 // random families: the thorough tier has room for many more
 	if big {
 		rmult = 12
@@ -516,21 +516,21 @@ func buildAlignPlan(prop string) (*alPlan, error) {
 		nr = 40 * rmult
 	}
 	for i, o := range opens(2) {
-		t4 := pb.table(genMatrix(r, fmt.Sprintf("seeded-4-%d", i), l4, matOpts{sym: i%2 == 0, open: o}))
-		t23 := pb.table(genMatrix(r, fmt.Sprintf("seeded-23-%d", i), l23, matOpts{sym: i%2 == 1, open: o}))
+		t4 := pb.table(alGenMatrix(r, fmt.Sprintf("seeded-4-%d", i), l4, alMatOpts{sym: i%2 == 0, open: o}))
+		t23 := pb.table(alGenMatrix(r, fmt.Sprintf("seeded-23-%d", i), l23, alMatOpts{sym: i%2 == 1, open: o}))
 		for k := 0; k < nr; k++ {
-			a, b := relatedPair(r, l4, 60)
+			a, b := alRelatedPair(r, l4, 60)
 			pb.call(t4, a, b)
-			a, b = relatedPair(r, l23, 60)
+			a, b = alRelatedPair(r, l23, 60)
 			pb.call(t23, a, b)
 		}
 		for k := 0; k < (rmult+1)/2; k++ { // a few long ones
 			if (i+k)%2 == 0 {
-				a := randSeq(r, l4, 150+r.Intn(51))
-				pb.call(t4, a, mutate(r, a, l4, 200))
+				a := alRandSeq(r, l4, 150+r.Intn(51))
+				pb.call(t4, a, alMutate(r, a, l4, 200))
 			} else {
-				a := randSeq(r, l23, 150+r.Intn(51))
-				pb.call(t23, mutate(r, a, l23, 200), a)
+				a := alRandSeq(r, l23, 150+r.Intn(51))
+				pb.call(t23, alMutate(r, a, l23, 200), a)
 			}
 		}
 		// empty sequences
@@ -539,7 +539,7 @@ func buildAlignPlan(prop string) (*alPlan, error) {
 			if t == t23 {
 				ls = l23
 			}
-			x := randSeq(r, ls, 1+r.Intn(30))
+			x := alRandSeq(r, ls, 1+r.Intn(30))
 			pb.call(t, []byte{}, []byte{})
 			pb.call(t, x, []byte{})
 			pb.call(t, []byte{}, x)
@@ -552,19 +552,19 @@ func buildAlignPlan(prop string) (*alPlan, error) {
 		if prop == "C09" {
 			np = 10 * rmult
 		}
-		for _, name := range shippedNames {
+		for _, name := range alShippedNames {
 			t := pb.table(alTable{Name: name, Kind: "shipped"})
-			x := randSeq(r, l23, 1+r.Intn(40))
+			x := alRandSeq(r, l23, 1+r.Intn(40))
 			pb.call(t, []byte{}, []byte{})
 			pb.call(t, x, []byte{})
 			pb.call(t, []byte{}, x)
-			pb.call(t, []byte(proteinLetters), []byte(proteinLetters)) // every letter against every letter
+			pb.call(t, []byte(alProteinLetters), []byte(alProteinLetters)) // every letter against every letter
 			for k := 0; k < np; k++ {
-				a, b := relatedPair(r, l23, 60)
+				a, b := alRelatedPair(r, l23, 60)
 				pb.call(t, a, b)
 			}
 			if big {
-				a, b := relatedPair(r, l23, 200)
+				a, b := alRelatedPair(r, l23, 200)
 				pb.call(t, a, b)
 			}
 		}
@@ -584,15 +584,15 @@ func buildAlignPlan(prop string) (*alPlan, error) {
 			sort.Ints(al)
 			t := pb.table(alTable{Name: fmt.Sprintf("Levenshtein-%d", i), Kind: "lev", Alpha: al})
 			pb.call(t, []byte{}, []byte{})
-			pb.call(t, randSeq(r, ls, 5), []byte{})
-			pb.call(t, []byte{}, randSeq(r, ls, 5))
+			pb.call(t, alRandSeq(r, ls, 5), []byte{})
+			pb.call(t, []byte{}, alRandSeq(r, ls, 5))
 			n := 8 * rmult
 			maxLen := 40
 			if i == 3 {
 				n, maxLen = 40*rmult, 8
 			}
 			for k := 0; k < n; k++ {
-				a, b := relatedPair(r, ls, maxLen)
+				a, b := alRelatedPair(r, ls, maxLen)
 				pb.call(t, a, b)
 			}
 		}
